@@ -22,13 +22,16 @@ pub const INFO: PropInfo = PropInfo {
         "user names contain no colon (RFC 7617)",
         "another letter case of the scheme name (`basic`) is grey: checked only in the direction 'if the handler ran, the credentials are a configured pair'",
     ],
-    expected_probes: &["c13.correct_admitted", "c13.mixed_pair_refused", "c13.non_utf8_last_byte", "c13.non_utf8_refused", "c13.missing_header_refused", "c13.colon_in_password", "c13.correct_then_missing_same_connection", "c13.array_config", "c13.padding_variant_refused"],
+    expected_probes: &["c13.correct_admitted", "c13.mixed_pair_refused", "c13.non_utf8_last_byte", "c13.non_utf8_refused", "c13.missing_header_refused", "c13.colon_in_password", "c13.correct_then_missing_same_connection", "c13.array_config", "c13.padding_variant_refused", "c13.two_configurations", "c13.admitted_elsewhere_refused_here"],
 };
 
 #[derive(Clone, Debug, Serialize, Deserialize)]
 pub struct Req {
     pub authorization: Option<Vec<u8>>,
     pub kind: String,
+    /// 0: the route guarded by `pairs`; 1: the route guarded by `second` (if any)
+    #[serde(default)]
+    pub realm: u8,
 }
 #[derive(Clone, Debug, Serialize, Deserialize)]
 pub struct Scenario {
@@ -37,6 +40,9 @@ pub struct Scenario {
     pub single: bool,
     pub placement: u8,
     pub reqs: Vec<Req>,
+    /// a second, differently configured BasicAuth guarding `/private2` in the same application
+    #[serde(default)]
+    pub second: Option<(String, String)>,
 }
 
 fn gen_part(allow_colon: bool) -> String {
@@ -77,7 +83,7 @@ pub fn generate(_cfg: &RunCfg, _out: &mut Outcome) -> Scenario {
     }
     let single = n == 1 && t::chance(1, 2);
     let nreq = t::range(2, 10) as usize;
-    let mut reqs = Vec::new();
+    let mut reqs: Vec<Req> = Vec::new();
     for _ in 0..nreq {
         let (u, p) = t::pick(&pairs);
         let good = format!("{u}:{p}");
@@ -148,9 +154,31 @@ pub fn generate(_cfg: &RunCfg, _out: &mut Outcome) -> Scenario {
         };
         // keep the request head inside the supported subset (C02: heads below the 1 KiB buffer)
         let (kind, auth) = if auth.as_ref().map(|a| a.len() > 880).unwrap_or(false) { ("missing", None) } else { (kind, auth) };
-        reqs.push(Req { authorization: auth, kind: kind.to_string() });
+        reqs.push(Req { authorization: auth, kind: kind.to_string(), realm: 0 });
     }
-    Scenario { pairs, single, placement: t::draw(3) as u8, reqs }
+    // two configurations in one process: what one of them admitted must mean nothing to the other
+    let second = if t::chance(1, 3) { Some((format!("two-{}", t::string(b"abc", 0, 4)), gen_part(true))) } else { None };
+    if let Some((u2, p2)) = &second {
+        let n0 = reqs.len();
+        let mut out: Vec<Req> = Vec::new();
+        for (i, r) in reqs.into_iter().enumerate() {
+            let mut r = r;
+            match t::weighted(&[3, 2, 2]) {
+                0 => {}
+                // the second realm's own credentials, at the second realm (admitted) ...
+                1 => r = Req { authorization: Some(format!("Basic {}", STANDARD.encode(format!("{u2}:{p2}"))).into_bytes()), kind: "second-correct".into(), realm: 1 },
+                // ... and whatever this request carried, presented to the second realm instead
+                _ => r.realm = 1,
+            }
+            out.push(r.clone());
+            // the byte-identical value again, right away, at the other realm
+            if i + 1 < n0 + 4 && t::chance(1, 3) {
+                out.push(Req { kind: format!("again-at-other-realm:{}", r.kind), realm: 1 - r.realm, ..r });
+            }
+        }
+        reqs = out;
+    }
+    Scenario { pairs, single, placement: t::draw(3) as u8, reqs, second }
 }
 
 pub fn run(cfg: &RunCfg, direct: Option<&serde_json::Value>) -> Outcome {
@@ -186,6 +214,16 @@ macro_rules! app_with {
 }
 
 fn build(sc: &Scenario) -> Ohkami {
+    match &sc.second {
+        None => build_first(sc),
+        Some((u2, p2)) => {
+            let second = BasicAuth { username: u2.clone(), password: p2.clone() };
+            Ohkami::new(("/r1".By(build_first(sc)), "/private2".GET((second, secret))))
+        }
+    }
+}
+
+fn build_first(sc: &Scenario) -> Ohkami {
     let ba = |i: usize| BasicAuth { username: sc.pairs[i].0.clone(), password: sc.pairs[i].1.clone() };
     if sc.single {
         return app_with!(ba(0), sc.placement);
@@ -219,6 +257,10 @@ fn execute(sc: &Scenario, out: &mut Outcome) {
     let obs: Rc<RefCell<Vec<Result<Resp, RecvErr>>>> = Rc::new(RefCell::new(Vec::new()));
     let o = obs.clone();
     let reqs = sc.reqs.clone();
+    let two_realms = sc.second.is_some();
+    if two_realms {
+        out.probe("c13.two_configurations");
+    }
     simcore::spawn_task("client", "client", async move {
         let mut c: Option<Client> = None;
         for r in &reqs {
@@ -229,7 +271,12 @@ fn execute(sc: &Scenario, out: &mut Outcome) {
                 }
             }
             let cl = c.as_mut().unwrap();
-            let mut bytes = b"GET /private HTTP/1.1\r\nHost: s\r\n".to_vec();
+            let path = match (two_realms, r.realm) {
+                (false, _) => "/private",
+                (true, 0) => "/r1/private",
+                (true, _) => "/private2",
+            };
+            let mut bytes = format!("GET {path} HTTP/1.1\r\nHost: s\r\n").into_bytes();
             if let Some(a) = &r.authorization {
                 bytes.extend_from_slice(b"Authorization: ");
                 bytes.extend_from_slice(a);
@@ -264,7 +311,7 @@ fn execute(sc: &Scenario, out: &mut Outcome) {
     let mut prev_admitted = false;
     for (k, r) in sc.reqs.iter().enumerate() {
         let Some(resp) = obs.get(k) else { break };
-        let desc = format!("request {k} ({}; Authorization {:?}; pairs {:?})", r.kind, r.authorization.as_ref().map(|a| String::from_utf8_lossy(a).into_owned()), sc.pairs);
+        let desc = format!("request {k} ({}; realm {}; Authorization {:?}; pairs {:?}; second {:?})", r.kind, r.realm, r.authorization.as_ref().map(|a| String::from_utf8_lossy(a).into_owned()), sc.pairs, sc.second);
         let resp = match resp {
             Ok(x) => x,
             Err(e) => {
@@ -273,7 +320,13 @@ fn execute(sc: &Scenario, out: &mut Outcome) {
             }
         };
         let ran = resp.header("X-Secret").is_some();
-        let should = judge(&sc.pairs, r.authorization.as_deref());
+        // the pairs configured for the realm this request went to
+        let second_pairs: Vec<(String, String)> = sc.second.iter().cloned().collect();
+        let realm_pairs: &Vec<(String, String)> = if sc.second.is_some() && r.realm == 1 { &second_pairs } else { &sc.pairs };
+        let should = judge(realm_pairs, r.authorization.as_deref());
+        if r.kind.starts_with("again-at-other-realm:") && !should {
+            out.probe("c13.admitted_elsewhere_refused_here");
+        }
         out.states.push(format!("{}|{}", r.kind, if should { "admit" } else { "refuse" }));
         let grey = r.kind == "other-scheme" && r.authorization.as_deref().map(|a| a.to_ascii_lowercase().starts_with(b"basic ")).unwrap_or(false);
         if r.kind == "padding-variant" && !should {
@@ -302,7 +355,7 @@ fn execute(sc: &Scenario, out: &mut Outcome) {
                         .and_then(|a| a.splitn(2, |b| *b == b' ').nth(1).map(|x| x.to_vec()))
                         .and_then(|b| STANDARD_NO_PAD.decode(b.iter().copied().filter(|c| *c != b'=' && *c != b' ').collect::<Vec<u8>>()).ok())
                         .and_then(|raw| String::from_utf8(raw).ok())
-                        .and_then(|s| s.split_once(':').map(|(u, p)| sc.pairs.iter().any(|(cu, cp)| cu == u && cp == p)))
+                        .and_then(|s| s.split_once(':').map(|(u, p)| realm_pairs.iter().any(|(cu, cp)| cu == u && cp == p)))
                         .unwrap_or(false);
                     if inner_ok {
                         continue;
